@@ -9,6 +9,7 @@
 package main
 
 import (
+	"sort"
 	"bytes"
 	"encoding/json"
 	"flag"
@@ -52,6 +53,8 @@ type gcomb struct {
 }
 
 type gmatrix struct {
+	constExpr bool // the WHOLE matrix is one fromJSON('<constant>'): statically known, keys as in a literal
+	nest      bool // a row `nest` whose value is a nested array: any-typed first element, then references
 	expr     bool
 	rows     []string
 	rowExpr  []bool
@@ -205,6 +208,18 @@ func gen(r *hx.Rng) *gwf {
 					m.rows = []string{"os"}
 					m.rowExpr = []bool{false}
 				}
+				allLit := m.incKind != 1
+				for _, x := range m.rowExpr {
+					allLit = allLit && !x
+				}
+				for _, c := range m.include {
+					allLit = allLit && !c.expr
+				}
+				if allLit && r.Chance(1, 5) {
+					m.constExpr = true
+				} else if r.Chance(1, 4) {
+					m.nest = true
+				}
 			}
 			j.matrix = m
 		}
@@ -296,6 +311,9 @@ func (w *gwf) oracle(rf *ref) int {
 				return 0
 			}
 		}
+		if m.nest && rf.path[0] == "nest" {
+			return 0
+		}
 		for _, k := range m.rows {
 			if lower(k) == rf.path[0] {
 				return 0
@@ -360,7 +378,20 @@ func exprOf(r *hx.Rng, ctx string, path []string) string {
 	for _, p := range path {
 		parts = append(parts, recase(r, p))
 	}
-	return "${{ " + strings.Join(parts, ".") + " }}"
+	e := strings.Join(parts, ".")
+	// the reference in other places of an expression: condition of `c && a || b`, under `!`,
+	// argument of a function, operand of a comparison
+	switch r.Intn(8) {
+	case 0:
+		e = e + " && 'a' || 'b'"
+	case 1:
+		e = "!(" + e + " && 1) && 2"
+	case 2:
+		e = "format('{0}', " + e + ")"
+	case 3:
+		e = "'x' == " + e
+	}
+	return "${{ " + e + " }}"
 }
 
 func (w *gwf) render(r *hx.Rng) (string, []*ref) {
@@ -444,8 +475,40 @@ func (w *gwf) render(r *hx.Rng) (string, []*ref) {
 			o.add("    strategy:")
 			if m.expr {
 				o.add("      matrix: ${{ fromJSON(vars.M) }}")
+			} else if m.constExpr {
+				var parts []string
+				for _, k := range m.rows {
+					parts = append(parts, fmt.Sprintf("%q:[\"a\",\"b\"]", k))
+				}
+				if m.incKind == 2 {
+					var cs []string
+					for _, c := range m.include {
+						var ks []string
+						for _, k := range c.keys {
+							ks = append(ks, fmt.Sprintf("%q:\"v\"", k))
+						}
+						cs = append(cs, "{"+strings.Join(ks, ",")+"}")
+					}
+					parts = append(parts, "\"include\":["+strings.Join(cs, ",")+"]")
+				}
+				o.add("      matrix: ${{ fromJSON('{" + strings.Join(parts, ",") + "}') }}")
 			} else {
 				o.add("      matrix:")
+				if m.nest {
+					// nested array: an element of unknown type first, then references (one per line)
+					o.add("        nest:")
+					o.add("          - - ${{ fromJSON(vars.N) }}")
+					for _, n := range append(append([]string{}, namePool[:2]...), "undefined_name") {
+						rf := &ref{kind: refInputs, path: []string{lower(n)}}
+						rf.line = o.add("            - ${{ inputs." + recase(r, n) + " }}")
+						refs = append(refs, rf)
+					}
+					for _, other := range append(append([]string{}, idPool[:3]...), "ghost") {
+						rf := &ref{kind: refNeeds, job: ji, path: []string{lower(other), "result"}}
+						rf.line = o.add("            - ${{ needs." + recase(r, other) + ".result }}")
+						refs = append(refs, rf)
+					}
+				}
 				for i, k := range m.rows {
 					if m.rowExpr[i] {
 						o.add("        " + k + ": ${{ fromJSON(vars.R) }}")
@@ -501,7 +564,14 @@ func (w *gwf) render(r *hx.Rng) (string, []*ref) {
 			for _, key := range append(append([]string{}, keyPool...), "undefkey") {
 				if r.Chance(1, 4) {
 					planted++
-					plant(indent, fmt.Sprintf("R%d", planted), &ref{kind: refMatrix, job: ji, path: []string{lower(key)}}, "matrix")
+					rf := &ref{kind: refMatrix, job: ji, path: []string{lower(key)}}
+					if j.matrix != nil && j.matrix.constExpr {
+						// (the rows of a constant matrix are typed as the arrays they are: not embedded in a template)
+						rf.line = o.add(fmt.Sprintf("%sR%d: ${{ toJSON(matrix.%s) }}", indent, planted, recase(r, key)))
+						refs = append(refs, rf)
+					} else {
+						plant(indent, fmt.Sprintf("R%d", planted), rf, "matrix")
+					}
 				}
 			}
 			// inputs / secrets
@@ -635,6 +705,29 @@ func dumpAST(w *actionlint.Workflow, g *gwf) (*astInfo, error) {
 				}
 			}
 			m = fmt.Sprintf("(Some (Build_matrixS %s %s %s))", hx.CoqBool(mm.Expression != nil), coqStrs(hx.SortedKeys(mm.Rows)), inc)
+			if gm := gj.matrix; gm != nil && gm.constExpr {
+				// the whole matrix is fromJSON('<constant>'): its type is statically known, the model gets the
+				// matrix the constant denotes (the evaluation of constant JSON is C06's subject)
+				var rows []string
+				for _, k := range gm.rows {
+					rows = append(rows, lower(k))
+				}
+				sort.Strings(rows)
+				inc := "InclNone"
+				if gm.incKind == 2 {
+					var cs []string
+					for _, c := range gm.include {
+						var ks []string
+						for _, k := range c.keys {
+							ks = append(ks, lower(k))
+						}
+						sort.Strings(ks)
+						cs = append(cs, "CombAssigns "+coqStrs(ks))
+					}
+					inc = "(InclList " + hx.CoqList(cs) + ")"
+				}
+				m = fmt.Sprintf("(Some (Build_matrixS false %s %s))", coqStrs(rows), inc)
+			}
 		}
 		ai.matCoq = append(ai.matCoq, m)
 	}
